@@ -190,6 +190,40 @@ def rule_one_per_violation(ctx, rid="R5.5"):
     return r
 
 
+def _param_is_callers_fresh_local(prog, calls, funcs, g, pname, w):
+    """Every call of the helper g (from the keyword-level functions) binds the written parameter to a local of the caller that is
+    bound once, to a fresh container (`[]`, `{}`, list(), dict(), set(), deque()), and is not one of the caller's own parameters."""
+    import ast as _ast
+    from ..prog import walk_body as _wb
+    if pname is None:
+        base = w.node
+        while isinstance(base, (_ast.Attribute, _ast.Subscript, _ast.Call)):
+            base = base.func if isinstance(base, _ast.Call) else base.value
+        pname = base.id if isinstance(base, _ast.Name) else None
+    if pname not in g.params:
+        return False
+    idx = g.params.index(pname)
+    sites = 0
+    for c in funcs:
+        for (_n, call, tg) in calls.calls_in(c):
+            if not any(t.kind == "func" and t.func is g for t in tg):
+                continue
+            sites += 1
+            arg = call.args[idx] if idx < len(call.args) else next((k.value for k in call.keywords if k.arg == pname), None)
+            if not isinstance(arg, _ast.Name) or arg.id in c.all_params:
+                return False
+            binds = [n for n in _wb(c) if isinstance(n, _ast.Assign) and any(isinstance(t, _ast.Name) and t.id == arg.id for t in n.targets)]
+            stores = [n for n in _wb(c) if isinstance(n, _ast.Name) and n.id == arg.id and isinstance(n.ctx, _ast.Store)]
+            if len(binds) != 1 or len(stores) != 1:
+                return False
+            v = binds[0].value
+            fresh = (isinstance(v, (_ast.List, _ast.Dict, _ast.Set)) and not getattr(v, "elts", getattr(v, "keys", []))) or \
+                (isinstance(v, _ast.Call) and isinstance(v.func, _ast.Name) and v.func.id in ("list", "dict", "set", "deque") and not v.args and not v.keywords)
+            if not fresh:
+                return False
+    return sites > 0
+
+
 def rule_no_shared_state(ctx, rid="R5.4"):
     prog = ctx.prog
     calls = calls_of(prog)
@@ -214,6 +248,8 @@ def rule_no_shared_state(ctx, rid="R5.4"):
         for w, tag in eff.nonlocal_writes(f):
             if tag[0] == "FLD" and tag[1] in ("Error", "ValidationError", "SchemaError"):
                 continue
+            if tag[0] == "P" and f not in roots and _param_is_callers_fresh_local(prog, calls, seen, f, tag[1] if len(tag) > 1 else None, w):
+                continue        # a collector the caller made for this call (`all_errors = []` handed to a private helper)
             bad.append((w, tag))
         if not bad:
             r.ok(site(f), "no shared-state write")
